@@ -154,9 +154,10 @@ def _worker(job):
                          key=lambda v: v.args[0])
         theta = prob._random_env(rnd, allvars)
         libvals = {}
+        lmemo = {}
         for name, dag in G.libs.items():
             try:
-                libvals[name] = S.evalf(dag, theta)
+                libvals[name] = S.evalf(dag, theta, lmemo)
             except Exception:  # noqa: BLE001
                 pass
         for r in results:
